@@ -31,7 +31,7 @@ def cache_mode(recs):
     h = 0
     for s, t, l in recs:
         h = (h * 31 + 7 * s[0] + 13 * s[1] + len(str(t)) + 3 * len(str(l))) % 1000003
-    return (h + len(recs)) % 4
+    return (h + len(recs)) % 6
 
 
 def mk_ann(tb, recs, uri=None, modality=None, mode=None):
@@ -39,17 +39,27 @@ def mk_ann(tb, recs, uri=None, modality=None, mode=None):
     are those of `recs`), leaving the caches in one of four states chosen from the records:
     0 never read; 1 fully read (clean caches); 2 first half read, second half inserted afterwards
     (stale timeline cache, dirty labels); 3 fully read with an extra segment that is then deleted
-    (stale timeline cache and a cached label that no longer occurs)."""
+    (stale timeline cache and a cached label that no longer occurs); 4 first half read, second half merged in place
+    with update(), one record at a time (same insertion order); 5 built by from_records."""
     from pyannote.core import Annotation
     mode = cache_mode(recs) if mode is None else mode
+    if mode == 5:
+        return Annotation.from_records(((tb.S(s), t, l) for s, t, l in recs), uri=uri, modality=modality)
     a = Annotation(uri=uri, modality=modality)
-    half = len(recs) // 2 if mode == 2 else len(recs)
+    half = len(recs) // 2 if mode in (2, 4) else len(recs)
     for s, t, l in recs[:half]:
         a[tb.S(s), t] = l
     if mode == 2:
         _prime_all(a)
         for s, t, l in recs[half:]:
             a[tb.S(s), t] = l
+    elif mode == 4:
+        _prime_all(a)
+        for s, t, l in recs[half:]:
+            b = Annotation(uri="zz_other_uri", modality="zz_other_modality")
+            b[tb.S(s), t] = l
+            r = a.update(b)
+            assert r is a, "update() did not return its receiver"
     elif mode == 1:
         _prime_all(a)
     elif mode == 3:
